@@ -53,3 +53,6 @@ Proof. vm_compute. reflexivity. Qed.
 
 Lemma sweep_same_name : forallb same_name_ok ctors = true.
 Proof. vm_compute. reflexivity. Qed.
+
+Lemma sweep_matches_reference : forallb matches_reference propdefs = true.
+Proof. vm_compute. reflexivity. Qed.
